@@ -6,6 +6,7 @@ import (
 	"bytes"
 	"fmt"
 	"math/rand"
+	"reflect"
 
 	legacyany "github.com/cosmos/cosmos-proto/any"
 	"github.com/cosmos/cosmos-proto/anyutil"
@@ -75,6 +76,14 @@ func engineAnyu(rep *Report) {
 				v := g.Msg(d, 0)
 				m := BuildStruct(s.Zero, v)
 				want := SpecEncode(Canon(v))
+				if i%4 == 1 && !hasRequiredBelow(d) {
+					// hand-built state: nil pointers as list elements / map values (they are packed as empty messages)
+					if nilOutMessages(reflect.ValueOf(m), r, 0) > 0 {
+						v = Canon(StructToIR(m))
+						want = SpecEncode(v)
+						rep.Count("C16", "packed-messages-with-nil-elements", 1)
+					}
+				}
 				rc := replayCase{Engine: "anyu", Type: tn, Seed: *flagSeed, Index: i, Value: hx(want)}
 				rep.Eval("C16", append([]byte(tn), want...), true)
 				if i == 0 && si == 0 {
